@@ -394,6 +394,12 @@ func (c *certificateV2) validate() error {
 		return NewErrInvalidCertificateProperties("name must be between 1 and %d bytes long", MaxNameLength)
 	}
 
+	for _, group := range c.details.groups {
+		if group == "" {
+			return NewErrInvalidCertificateProperties("groups must not contain an empty name")
+		}
+	}
+
 	if len(c.publicKey) == 0 {
 		return ErrInvalidPublicKey
 	}
